@@ -361,6 +361,7 @@ pub fn corr(run: &mut Run) {
         }
     }
 
+    run.rule.push_str(" U: per-bit uniformity of every party's tuple over 400 sharings of a fixed secret (ragged bit arrays, small integer arrays). L: leaves of 512 bytes and more: no aligned 8-byte window repeats within what one party holds.");
     // ---- U: every bit of the shares a single party holds is uniform whatever the secret is. For ragged bit
     // arrays (2..7 bits in the last byte) and small integer arrays, over 400 sharings of a FIXED secret every
     // bit of every slot of every party's tuple must be 1 in 30%..70% of the sharings (8 standard deviations).
